@@ -677,3 +677,113 @@ func paramIdxOf(fn *ssa.Function, v ssa.Value) int {
 	}
 	return -1
 }
+
+// naturalLoops: the loops of fn as sets of blocks (one per back edge u→h with h dominating u).
+func naturalLoops(fn *ssa.Function) []map[*ssa.BasicBlock]bool {
+	var out []map[*ssa.BasicBlock]bool
+	for _, u := range fn.Blocks {
+		for _, h := range u.Succs {
+			if !h.Dominates(u) {
+				continue
+			}
+			body := map[*ssa.BasicBlock]bool{h: true}
+			work := []*ssa.BasicBlock{u}
+			for len(work) > 0 {
+				x := work[len(work)-1]
+				work = work[:len(work)-1]
+				if body[x] {
+					continue
+				}
+				body[x] = true
+				work = append(work, x.Preds...)
+			}
+			out = append(out, body)
+		}
+	}
+	return out
+}
+
+// freshPerEvaluation: v, used by instruction use, designates an object created anew for every execution of use:
+// an allocation / constructor call (a repo function all of whose returns are fresh allocations) that lies inside every
+// loop that contains use, followed through φ and local variables. Returns the reason when it does not hold.
+func (c *Ctx) freshPerEvaluation(v ssa.Value, use ssa.Instruction) (bool, string) {
+	fn := use.Parent()
+	loops := naturalLoops(fn)
+	inEveryLoopOfUse := func(b *ssa.BasicBlock) bool {
+		for _, l := range loops {
+			if l[use.Block()] && !l[b] {
+				return false
+			}
+		}
+		return true
+	}
+	var freshRet func(f *ssa.Function, depth int) bool
+	var fresh func(v ssa.Value, depth int, local bool) (bool, string)
+	freshRet = func(f *ssa.Function, depth int) bool {
+		if depth > 5 || len(f.Blocks) == 0 {
+			return false
+		}
+		n := 0
+		for _, b := range f.Blocks {
+			if ret, isR := b.Instrs[len(b.Instrs)-1].(*ssa.Return); isR && len(ret.Results) >= 1 {
+				n++
+				if ok, _ := fresh(ret.Results[0], depth+1, false); !ok {
+					return false
+				}
+			}
+		}
+		return n > 0
+	}
+	fresh = func(v ssa.Value, depth int, local bool) (bool, string) {
+		if depth > 8 {
+			return false, "too deep"
+		}
+		switch x := v.(type) {
+		case *ssa.Alloc:
+			if !x.Heap {
+				return false, "a stack variable"
+			}
+			if local && !inEveryLoopOfUse(x.Block()) {
+				return false, fmt.Sprintf("the object is allocated at %s, outside a loop that executes the use several times: every iteration works on the same object", c.P.RelPos(x.Pos()))
+			}
+			return true, ""
+		case *ssa.Call:
+			sc := x.Call.StaticCallee()
+			if sc == nil || !c.P.IsRepoFunc(sc) || !freshRet(sc, depth+1) {
+				return false, fmt.Sprintf("the result of %s is not known to be a fresh object", calleeName(&x.Call))
+			}
+			if local && !inEveryLoopOfUse(x.Block()) {
+				return false, fmt.Sprintf("the object is created at %s, outside a loop that executes the use several times: every iteration works on the same object", c.P.RelPos(x.Pos()))
+			}
+			return true, ""
+		case *ssa.Phi:
+			for _, e := range x.Edges {
+				if ok, why := fresh(e, depth+1, local); !ok {
+					return false, why
+				}
+			}
+			return len(x.Edges) > 0, ""
+		case *ssa.UnOp:
+			if al, isAl := x.X.(*ssa.Alloc); isAl && x.Op == token.MUL {
+				n := 0
+				for _, ref := range *al.Referrers() {
+					if st, isSt := ref.(*ssa.Store); isSt && st.Addr == ssa.Value(al) {
+						n++
+						if ok, why := fresh(st.Val, depth+1, local); !ok {
+							return false, why
+						}
+					}
+				}
+				if n > 0 {
+					return true, ""
+				}
+			}
+		case *ssa.ChangeType:
+			return fresh(x.X, depth+1, local)
+		case *ssa.MakeInterface:
+			return fresh(x.X, depth+1, local)
+		}
+		return false, fmt.Sprintf("%s is not a fresh allocation", v.String())
+	}
+	return fresh(v, 0, true)
+}
